@@ -31,9 +31,13 @@ def region_replace(rng, toks):
         elif tt is T.Name and len(v) >= 2 and v[0] == '`' and v[-1] == '`':
             out.append('`' + (body(['`', '\\']) or 'q') + '`')
         elif tt is T.Comment.Multiline and v.startswith('/*') and v.endswith('*/') and not v.startswith('/*+'):
-            b = body(['*/', '/*'])
-            while b.endswith('*') or b.startswith('+') or b.endswith('/'):
-                b = b[:-1] if (b.endswith('*') or b.endswith('/')) else b[1:]
+            b = body(['*/'])
+            if rng.random() < 0.3:
+                b += rng.choice(['*', '**', ' *', '/', '***'])
+            while b.startswith('+') or '*/' in b + '*':
+                b = b[1:] if b.startswith('+') else b.replace('*/', '')
+                if b.endswith('*') and '*/' in b + '*/'[:0]:
+                    break
             out.append('/*' + b + '*/')
         elif tt is T.Comment.Single and v.startswith('--') and v.endswith('\n') and not v.startswith('--+'):
             b = body(['\n', '\r'])
@@ -113,6 +117,7 @@ def run(ctx):
             ctx.mismatch('DOMAIN(quiet)', s, o, 'grammar statement expected to satisfy SUnit.ok')
         # correspondence
         streams.s_csl(ctx)
+        streams.s_split(ctx, [gen.gsplit(rng) for _ in range(ctx.n(4000, 60000))])
         ins = [c['input'] for c in streams.corpus('C05')] + [gen.mixed(rng) for _ in range(ctx.n(2000, 40000))]
         streams.s_split(ctx, ins)
         gtexts = model_q[: ctx.n(300, 3000)]
